@@ -103,7 +103,7 @@ func c15Route(e *env, d *ring.PartitionRingDesc, keys []uint32) {
 	if len(keys) > 0 {
 		os = strings.Join(owners, ",")
 	}
-	e.emit("C15.route", encPDesc(d), u32s(keys), "-", os, gs)
+	e.emit("C15.route", c14EncPDesc(d), u32s(keys), "-", os, gs)
 }
 
 func c15GenRoute(e *env) {
@@ -565,7 +565,7 @@ func c15Repl(e *env, r *rng) {
 			sort.Strings(ss)
 			o = "ok:" + strings.Join(ss, ";")
 		}
-		e.emit("C15.repl", encPDesc(d), encDesc(inst), c15HealthyBits(op), o)
+		e.emit("C15.repl", c14EncPDesc(d), encDesc(inst), c15HealthyBits(op), o)
 		return
 	}
 	mr := ring.NewMultiPartitionInstanceRing(c15Reader{pr}, ir, time.Hour)
@@ -583,7 +583,7 @@ func c15Repl(e *env, r *rng) {
 			}
 			o = "ok:" + strings.Join(in, "+") + ":" + itoa(s.MaxUnavailableZones) + ":" + itoa(s.MaxErrors) + ":" + itoa(za)
 		}
-		e.emit("C15.mrepl", encPDesc(d), encDesc(inst), c15HealthyBits(op)+","+strconv.Itoa(int(pid)), o)
+		e.emit("C15.mrepl", c14EncPDesc(d), encDesc(inst), c15HealthyBits(op)+","+strconv.Itoa(int(pid)), o)
 	}
 }
 
